@@ -222,6 +222,7 @@ impl Prop for C04 {
                 Space { name: "nest", size: nest, exhaustive: true, chunk: 200, case_timeout_s: 20.0, what: "every nesting construct at every depth 1..64, as a global statement, inside fn dsp, and unclosed" },
                 Space { name: "soup", size: 60_000, exhaustive: false, chunk: 1000, case_timeout_s: 20.0, what: "grammar-biased random token/fragment/Unicode soups" },
                 Space { name: "corpus", size: 12_000, exhaustive: false, chunk: 200, case_timeout_s: 30.0, what: "shipped sources truncated, range-deleted, duplicated, with insertions and replaced characters" },
+                Space { name: "holes", size: 30_000, exhaustive: false, chunk: 1000, case_timeout_s: 20.0, what: "program templates with holes (parameter defaults of functions, lambdas and macros, delay sizes, indices, schedule times, global initialisers, match scrutinees and arms, record fields, annotations) filled from a pool of special expressions (self, now, placeholders, macro calls and splices, stateful calls, lambdas, blocks, records, strings, paths)" },
                 Space { name: "modsoup", size: 60_000, exhaustive: false, chunk: 1000, case_timeout_s: 20.0, what: "module-structured texts over a 4-name pool (nested mods, pub/private fns, use of paths, wildcards and lists, re-export chains and cycles)" },
             ],
             Tier::Thorough => vec![
@@ -230,6 +231,7 @@ impl Prop for C04 {
                 Space { name: "nest", size: nest, exhaustive: true, chunk: 200, case_timeout_s: 20.0, what: "every nesting construct at every depth 1..64, as a global statement, inside fn dsp, and unclosed" },
                 Space { name: "soup", size: 2_000_000, exhaustive: false, chunk: 5000, case_timeout_s: 20.0, what: "grammar-biased random token/fragment/Unicode soups" },
                 Space { name: "corpus", size: 300_000, exhaustive: false, chunk: 500, case_timeout_s: 30.0, what: "shipped sources truncated, range-deleted, duplicated, with insertions and replaced characters" },
+                Space { name: "holes", size: 600_000, exhaustive: false, chunk: 5000, case_timeout_s: 20.0, what: "program templates with holes filled from a pool of special expressions" },
                 Space { name: "modsoup", size: 2_000_000, exhaustive: false, chunk: 5000, case_timeout_s: 20.0, what: "module-structured texts over a 4-name pool (nested mods, pub/private fns, use of paths, wildcards and lists, re-export chains and cycles)" },
             ],
         }
@@ -288,6 +290,10 @@ impl Prop for C04 {
             "soup" => {
                 let s = tg::soup(g, 40);
                 finish(&s, "soup", None, cx)
+            }
+            "holes" => {
+                let s = tg::holesoup(g);
+                finish(&s, "holes", None, cx)
             }
             "modsoup" => {
                 let s = tg::modsoup(g);
